@@ -149,7 +149,7 @@ row("C29", True, "E-INPUT",
 row("C32", True, "E-INPUT",
     EI + " (all byte strings up to a length bound as the Unstructured entropy); oracle: generated document parses and validates; generation twice gives identical text",
     "Every byte string of length <= 2 over all 256 bytes, up to a larger bound over 6 representative bytes, every unit of <= 2|3 bytes repeated to 64..4096 bytes, and every all-zero input of 64|128 bytes with at most two bytes changed is fed as entropy to apollo-smith's DocumentBuilder in each mode (type-system, executable against base schemas); the generated text must parse and validate with the real compiler and a second generation from the same bytes must be identical.",
-    "Base schemas stay inside what DocumentBuilder implements (no union/custom-scalar output fields; no self-referential input objects). arbitrary's IncorrectFormat counts as 'no document from this input'; documents beyond the parser's / validator's own recursion limits are not judged. Three fixed witness inputs from an independent random search form a regression family (two open findings, one fixed by 0b18ccc); defects that need long specific inputs are outside the enumerated families.")
+    "Base schemas stay inside what DocumentBuilder implements (no union/custom-scalar output fields; no self-referential input objects). arbitrary's IncorrectFormat counts as 'no document from this input'; documents beyond the parser's / validator's own recursion limits are not judged. Four fixed witness inputs form a regression family (three from an independent random search: two open findings, one fixed by 0b18ccc; one from a seeded change's demonstration: a depth-3 fragment spread chain); defects that need long specific inputs are outside the enumerated families.")
 
 row("C33", True, "E-CHOICE",
     "stateless exhaustive enumeration of every RandomProvider answer sequence (complete tree, or all sequences with <= k deviations from the default answer) with the real ResponseBuilder run on each; oracle: shape checker + real execution",
